@@ -8,6 +8,8 @@
 #include "spec.h"
 #include "deps.h"
 #include "lang.h"
+#include "gf.h"
+#include "c16_gen.h"
 
 #define NL 10
 typedef int cmp_fn(const void*, const void*);
@@ -109,5 +111,11 @@ void p6_wipe(void) {
     polyseed_status st = polyseed_phrase_decode(phrase, idx, &lang);
     (void)st;
     VASSERT(wipes_whole(sizeof(uint_fast16_t) * 16) >= 1, "P6 temporary word-index array wiped on every exit of automatic detection");
+    C16_CHECK(polyseed_phrase_decode, "C16 every temporary aggregate of polyseed_phrase_decode is wiped as a whole object on every exit");
+    /* explicit lookup keeps no copy */
+    L_mz_calls = 0;
+    uint_fast16_t idx2[16];
+    (void)polyseed_phrase_decode_explicit(phrase, polyseed_get_lang(0), idx2);
+    C16_CHECK(polyseed_phrase_decode_explicit, "C16 every temporary aggregate of polyseed_phrase_decode_explicit is wiped");
     VEND();
 }
